@@ -268,3 +268,109 @@ func corrLazyWriter(rng *hx.Rng, n int) {
 		}
 	}
 }
+
+// ---------------------------------------------------------------- search: header size limits
+// (a) the lazy writer's header: after AddSampleToTrack for the given sizes, the accumulated size is their sum and
+// Encode writes a well-formed mdat header announcing exactly that many payload bytes.
+// (b) mdat boxes whose size is at the limit of the 32-bit size field (and 16-byte headers on both sides of it),
+// decoded lazily from a position-synthesizing reader: Size / HeaderSize / PayloadAbsoluteOffset as in the file, Encode
+// and EncodeSW write exactly the original header, the last payload bytes read back as the file's.
+func headerAnnounces(h []byte) (payload uint64, ok bool) {
+	if len(h) == 8 && string(h[4:8]) == "mdat" {
+		s := uint64(h[0])<<24 | uint64(h[1])<<16 | uint64(h[2])<<8 | uint64(h[3])
+		if s >= 8 {
+			return s - 8, true
+		}
+	}
+	if len(h) == 16 && string(h[4:8]) == "mdat" && h[0] == 0 && h[1] == 0 && h[2] == 0 && h[3] == 1 {
+		var s uint64
+		for _, b := range h[8:] {
+			s = s<<8 | uint64(b)
+		}
+		if s >= 16 {
+			return s - 16, true
+		}
+	}
+	return 0, false
+}
+
+func searchHeaderLimits(rng *hx.Rng, n int) {
+	for i := 0; i < 2*n; i++ {
+		k := rng.Range(1, 6)
+		sizes := make([]uint32, k)
+		for j := range sizes {
+			sizes[j] = uint32(rng.Pick(0, 1, 7, 1000, 1<<31, 1<<32-1, 1<<32-9, 1<<32-10, 1<<32-8, 1<<31-9, 1<<31-8))
+			if rng.Intn(4) == 0 {
+				sizes[j] = uint32(rng.Intn(1 << 20))
+			}
+		}
+		if i < 4 { // a single sample right at the limit of the 8-byte header
+			sizes = []uint32{uint32([]uint64{1<<32 - 9, 1<<32 - 8, 1<<32 - 10, 1<<32 - 1}[i])}
+		}
+		var sum uint64
+		for _, z := range sizes {
+			sum += uint64(z)
+		}
+		evals++
+		lz, enc := preparedMdat(sizes)
+		wit := fmt.Sprintf("CreateFragment(1,1) + AddSampleToTrack for sample sizes %v", sizes)
+		if lz != fmt.Sprintf("%x", sum) {
+			fail("lazy-writer(AddSampleToTrack)", "accumulated-size", wit, fmt.Sprintf("lazy data size %s, the samples have %x bytes", lz, sum))
+			continue
+		}
+		hb, err := hexBytes(strings.TrimPrefix(enc, "o:"))
+		if !strings.HasPrefix(enc, "o:") || err != nil {
+			fail("lazy-writer(Mdat.Encode)", "error-on-valid-size", wit, "Encode of the mdat prepared for "+lz+" (hex) bytes: "+clip(enc))
+			continue
+		}
+		if p, ok := headerAnnounces(hb); !ok || p != sum {
+			fail("lazy-writer(Mdat.Encode)", "header-announces-other-size", wit, fmt.Sprintf("header %x for %x payload bytes", hb, sum))
+		}
+	}
+	for i := 0; i < n; i++ {
+		var head []byte
+		var size uint64
+		if i%2 == 0 {
+			size = uint64(rng.Pick(1<<32-1, 1<<32-2, 1<<32-9, 1<<31, 1<<31+7, 1<<32-1)) - uint64(rng.Intn(2))*uint64(rng.Intn(1000))
+			if i < 2 {
+				size = 1<<32 - 1
+			}
+			head = append(be32(uint32(size)), "mdat"...)
+		} else {
+			size = uint64(rng.Pick(16+5, 1<<32-1, 1<<32, 1<<32+7, 1<<32+8, 1<<32+16, 5<<30, 1<<32-8)) + uint64(rng.Intn(3))
+			head = append(append(be32(1), "mdat"...), be64(size)...)
+		}
+		evals++
+		wit := fmt.Sprintf("mdat box header %x (box of %d bytes, payload synthesized), decoded lazily at position 0", head, size)
+		rs := &sparseRS{head: head, total: int64(size), orc: genOracle(rng)}
+		var b mp4.Box
+		var err error
+		if p := hx.Try(func() { b, err = mp4.DecodeBoxLazyMdat(0, rs) }); p != "" || err != nil {
+			fail("DecodeBoxLazyMdat", "decode-failed", wit, fmt.Sprintf("panic=%s err=%v", clip(p), err))
+			continue
+		}
+		m, ok := b.(*mp4.MdatBox)
+		if !ok {
+			fail("DecodeBoxLazyMdat", "decode-failed", wit, "not an mdat box")
+			continue
+		}
+		if m.Size() != size || m.HeaderSize() != uint64(len(head)) || m.PayloadAbsoluteOffset() != uint64(len(head)) {
+			fail("MdatBox.Size", "size-differs", wit, fmt.Sprintf("Size()=%d HeaderSize()=%d PayloadAbsoluteOffset()=%d", m.Size(), m.HeaderSize(), m.PayloadAbsoluteOffset()))
+		}
+		if got, want := encode(m), "o:"+hx.Hex(head); got != want {
+			fail("MdatBox.Encode(lazy)", "header-plus-payload", wit, "Encode of the lazily decoded box does not write the original header: "+clip(got))
+		}
+		if got, want := swMdat(m, len(head), 0, false), "o:"+hx.Hex(head)+":0"; got != want {
+			fail("MdatBox.EncodeSW(lazy)", "not-header-only", wit, "EncodeSW of the lazily decoded box does not write the original header: "+clip(got))
+		}
+		if size >= uint64(len(head))+3 {
+			start := int64(size) - 3
+			want := []byte{sparseByte(start), sparseByte(start + 1), sparseByte(start + 2)}
+			var got []byte
+			rs2 := &sparseRS{head: head, total: int64(size), orc: genOracle(rng)}
+			if p := hx.Try(func() { got, err = m.ReadData(start, 3, rs2) }); p != "" || err != nil || hx.Hex(got) != hx.Hex(want) {
+				fail("MdatBox.ReadData(lazy)", "range-ending-at-last-byte", wit, fmt.Sprintf("last 3 payload bytes: got %x want %x panic=%s err=%v", got, want, clip(p), err))
+			}
+		}
+	}
+}
